@@ -33,7 +33,8 @@ type c14Scenario struct {
 	Shape     string      `json:"shape"`
 	StartVal  bool        `json:"start_with_val"`
 	IOHandler bool        `json:"io_on_handler"`
-	Restart   string      `json:"redundant_start,omitempty"` // "", "Start", "StartWithVal": called again on the running target
+	IOPreSub  string      `json:"io_preset_subscribe_on,omitempty"` // "" | same | closed
+	Restart   string      `json:"redundant_start,omitempty"`        // "", "Start", "StartWithVal": called again on the running target
 	RestartD  int         `json:"redundant_start_delay_yields,omitempty"`
 	LateStart int         `json:"target_started_after_n_yields,omitempty"` // callers may queue requests before the target runs
 	Gated     bool        `json:"callers_wait_for_IsStarted,omitempty"`    // StartWithVal runs concurrently with callers that poll IsStarted()
@@ -62,6 +63,9 @@ func genC14(t *simrt.Tape, tier string) Scenario {
 	sc.Shape = []string{"fixed", "echo", "accumulate"}[t.Choose(3)]
 	sc.StartVal = t.Bool(1, 3)
 	sc.IOHandler = t.Bool(1, 2)
+	// the IO handed to YieldFromIO already carries a SubscribeOn handler (the ObserveOn handler itself,
+	// or a handler that has been closed): YieldFromIO must deliver the value to the coroutine regardless
+	sc.IOPreSub = []string{"", "same", "closed"}[t.ChooseW([]int{3, 1, 1})]
 	if !sc.StartVal && t.Bool(1, 4) {
 		sc.LateStart = 1 + t.Choose(12)
 	}
@@ -177,6 +181,11 @@ func (sc *c14Scenario) Run(s *simrt.Sim) {
 	if sc.IOHandler {
 		hd = fpgo.Handler.New()
 	}
+	var closedHd *fpgo.HandlerDef
+	if sc.IOPreSub == "closed" {
+		closedHd = fpgo.Handler.New()
+		closedHd.Close()
+	}
 	callersDone := 0
 	var ths []*simrt.Thread
 	for ci, c := range sc.Callers {
@@ -202,6 +211,12 @@ func (sc *c14Scenario) Run(s *simrt.Sim) {
 					io := fpgo.MonadIOJustGenerics[int](x)
 					if hd != nil {
 						io = io.ObserveOn(hd)
+					}
+					switch {
+					case sc.IOPreSub == "same" && hd != nil:
+						io = io.SubscribeOn(hd)
+					case sc.IOPreSub == "closed":
+						io = io.SubscribeOn(closedHd)
 					}
 					op := h.Do(name, "YieldFromIO", x, func() (interface{}, error) { return self.YieldFromIO(io), nil })
 					if op.Panic == "" && op.Val != x {
